@@ -147,6 +147,7 @@ def facade_records(rng, quick):
                     if others:
                         combos.append(tuple([0] * n_pb + [1] * len(others)))
                     facades = [facade]
+                    facade._on_config_device_change()      # (what the first cycle of the facade's update task does)
                     # history: after the sweep, everything on (active), the facade is torn down, the
                     # devices stop while disconnected, a new facade is built (a reconnect): idle again
                     combos = list(combos) + [tuple([1] * len(cands)), "reconnect", tuple([0] * len(cands))]
@@ -163,6 +164,7 @@ def facade_records(rng, quick):
                                     w_ = val
                                 st.replace_status_block_segment(a.pos, w_.to_bytes(a.length, "big"))
                             facade = GeckoAsyncFacade(spa, tm)
+                            facade._on_config_device_change()      # (first update cycle of the new facade)
                             cands = facade.pumps + facade.blowers + [d for d in facade.lights if hasattr(d, "_state_sensor")]
                             state_accs = [d._state_sensor.accessor for d in cands]
                             continue
@@ -180,7 +182,8 @@ def facade_records(rng, quick):
                                 w_ = val
                             old = st.status_block
                             st.replace_status_block_segment(a.pos, w_.to_bytes(a.length, "big"))
-                        facade._on_config_device_change()
+                        # (no explicit call into the facade: it has to notice by itself, through the watchers it
+                        # installed on its devices, as it does when a partial update arrives)
                         live = {m: getattr(cfg.GeckoConfig, m) for m in members}
                         mode = "active" if live == act else "idle" if live == idl else "mixed"
                         on, other = [], []
